@@ -943,4 +943,33 @@ theorem closeCur_spec (p : Params) (s : EncState) (nid : Nat) (m : Method) (inpu
         · exact flushE_isAppend s e he
         · exact writeE_isAppend m _ _ e he
 
+/-! ### C09: one pending placeholder, bounded lag -/
+
+theorem stable_pipeOf (d : List UInt8) (k id : Nat) (b : List UInt8) (hk : 1 ≤ k) :
+    (pipeOf d k id b).stable = d := by
+  obtain ⟨k', rfl⟩ : ∃ k', k = k' + 1 := ⟨k - 1, by omega⟩
+  simp [pipeOf, Pipe.stable, List.replicate_succ, Cell.isByte]
+
+theorem size_pipeOf (d : List UInt8) (k id : Nat) (b : List UInt8) :
+    (pipeOf d k id b).size = d.length + k + b.length := by
+  simp [pipeOf, Pipe.size, Nat.add_assoc]
+
+/-- Shape of the encoder's output between calls: closed chunks (all bytes), then the one
+placeholder of the open chunk, then the bytes written into the open chunk. -/
+theorem reachable_shape (p : Params) (hp : p.Valid) {s : EncState} {nid : Nat} {q : Pipe}
+    (h : Reachable p s nid q) :
+    ∃ done body, q = pipeOf done s.brLen s.backref body ∧ body.length = s.cur ∧ nid = s.backref + 1 ∧
+      1 ≤ s.brLen ∧ s.brLen ≤ 2 ∧ s.cur + (if s.mid then 1 else 0) < s.maxChunk ∧
+      (s.maxChunk = p.maxInit ∨ s.maxChunk = p.maxSub) := by
+  obtain ⟨σ, ⟨hmax, hcur, hmid, hbr, hnid, hq⟩, h1, _⟩ := reachable_rel p hp h
+  have hinv' : σ.eff.length < limit p σ.first := h1
+  have hM : σ.M p = limit p σ.first := rfl
+  rw [BS.eff_length, ← hmid, ← hcur] at hinv'
+  refine ⟨σ.done, σ.body, hq, hcur.symm, hnid, ?_, ?_, by omega, ?_⟩
+  · cases hf : σ.first <;> simp [hbr, hf]
+  · cases hf : σ.first <;> simp [hbr, hf]
+  · cases hf : σ.first
+    · right; rw [hmax, hM, hf]; rfl
+    · left; rw [hmax, hM, hf]; rfl
+
 end Woodpile.Hcobs.EncProof
